@@ -1,5 +1,6 @@
 import TantivyModel.Driver.Proto
 import TantivyModel.Model.Sorted
+import TantivyModel.Driver.C04
 /-!
 Line protocol of the index-sorting model.
 
@@ -93,13 +94,16 @@ def handle : List String → String
       let rs := runs.zipIdx.map fun (ks, i) => toRun i ks
       showBool (stackOk d st rs) ++ "/" ++ showKeys (rs.flatten.map (·.1))
     | _, _, _ => "bad-op"
+  | "shuffled" :: rest =>
+    -- merge of a sorted index through the real new→old table: the C04 merge model
+    Driver.C04.handle ("shuffled" :: rest)
   | "decision" :: d :: segs =>
     -- readers sorted by min value (`sort_readers_by_min_sort_field`), then the stack decision
     match parseDir d, segs.mapM parseSegCol with
     | some d, some cs =>
       let sorted := sortReaders d (cs.zipIdx.map fun (c, i) => (c.stats, (c, i)))
       (match stackDecisionG d (sorted.map (·.2.1)) with | some b => showBool b | none => "?") ++ "/" ++ showNatList (sorted.map (·.2.2)) ++ "/" ++
-        showBool ((sorted.map (·.2.1)).any fun c => hasLiveNulls c.card c.keys c.alive)
+        showBool ((sorted.map (·.2.1)).any fun c => hasLiveNullsG c.card c.keys c.alive)
     | _, _ => "bad-op"
   | _ => "bad-op"
 
